@@ -12,15 +12,15 @@ use std::process::Command;
 pub struct C14;
 
 #[derive(Clone, Debug)]
-struct Gm {
-    file: usize,
-    ecu: [u8; 4],
-    apid: [u8; 4],
-    ctid: [u8; 4],
-    recv_us: u64,
-    ts_dms: u32,
-    mcnt: u8,
-    text: String,
+pub struct Gm {
+    pub file: usize,
+    pub ecu: [u8; 4],
+    pub apid: [u8; 4],
+    pub ctid: [u8; 4],
+    pub recv_us: u64,
+    pub ts_dms: u32,
+    pub mcnt: u8,
+    pub text: String,
 }
 
 /// four input files: f0 = ECU1 (two boots), f1 = ECU2, f2 = continuation of ECU1's second boot, f3 = both ECUs.
@@ -128,11 +128,11 @@ fn cfg_from_json(v: &Value) -> Cfg {
     }
 }
 
-struct World {
-    dir: String,
-    files: Vec<String>,
+pub struct World {
+    pub dir: String,
+    pub files: Vec<String>,
     /// merged unfiltered input in index order
-    merged: Vec<Gm>,
+    pub merged: Vec<Gm>,
     /// CLI lifecycle id per merged message (fresh process: ids count from 1 in creation order)
     lc: Vec<u32>,
     dlf: String,
@@ -145,7 +145,7 @@ fn trim4(b: &[u8; 4]) -> &[u8] {
 }
 
 impl World {
-    fn build() -> World {
+    pub fn build() -> World {
         let dir = scratch_dir();
         let inputs = gen_inputs();
         let mut files = vec![];
@@ -429,7 +429,7 @@ impl Prop for C14 {
             assumptions: vec!["one generated input set (20 messages, 4 files); lifecycle ids of the CLI are assumed to count from 1 in creation order in a fresh process".into()],
             budget_s: (50, 1500),
             workers: 1,
-            required_landmarks: vec!["window", "lcs", "eac", "ffile_dlf", "ffile_conv", "sort", "o_file", "perm", "empty_selection", "nonempty_selection"],
+            required_landmarks: vec!["window", "lcs", "eac", "ffile_dlf", "ffile_conv", "sort", "o_file", "perm", "empty_selection", "nonempty_selection", "export_twice"],
         }
     }
     fn prepare(&self, _t: Tier) -> Result<(), String> {
@@ -493,6 +493,34 @@ impl Prop for C14 {
         }
         let _ = n;
         ctx.end_family(!timed_out);
+        // export of the export is byte-identical (C02 at CLI level), for every file order and with --sort
+        ctx.begin_family("export_twice", "convert -o a.dlt <files>; convert -o b.dlt a.dlt; a == b; for 4 file orders x sort");
+        for perm in [0usize, 7, 18, 23] {
+            for sort in [false, true] {
+                ctx.mine();
+                let (a, b) = (format!("{}/exp-a-{perm}-{sort}.dlt", w.dir), format!("{}/exp-b-{perm}-{sort}.dlt", w.dir));
+                let mut c1 = Command::new(adlt_bin());
+                c1.arg("convert").arg("-o").arg(&a);
+                if sort {
+                    c1.arg("--sort");
+                }
+                for i in &perms4()[perm] {
+                    c1.arg(&w.files[*i]);
+                }
+                let ok1 = c1.output().map(|o| o.status.success()).unwrap_or(false);
+                let ok2 = Command::new(adlt_bin()).arg("convert").arg("-o").arg(&b).arg(&a).output().map(|o| o.status.success()).unwrap_or(false);
+                let (ba, bb) = (std::fs::read(&a).unwrap_or_default(), std::fs::read(&b).unwrap_or_default());
+                let cj = || json!({"family": "export_twice", "file_perm": perm, "sort": sort});
+                if !ok1 || !ok2 || ba.is_empty() {
+                    ctx.violation("export_failed", "", cj, format!("convert -o failed ({ok1}, {ok2}, {} bytes)", ba.len()));
+                } else if ba != bb {
+                    ctx.violation("export_of_export_differs", "", cj, format!("{} vs {} bytes", ba.len(), bb.len()));
+                }
+                ctx.landmark("export_twice");
+                ctx.eval(true);
+            }
+        }
+        ctx.end_family(true);
         let _ = std::fs::remove_dir_all(&w.dir);
     }
     fn replay(&self, case: &Value, ctx: &mut Ctx) {
